@@ -141,6 +141,12 @@ EXTRA.update({
 EXTRA.update({
     "lazy-below-page-break.py": ("python", "lazy-ignores", 6, "\"\"\"\nPurpose: x\n\"\"\"\nA = 1  # section\x0c break\nB = 2\nimport os  # noqa\n"),
 })
+# a float literal with many significant digits: the message quotes the literal, not a rounded rendering of it
+EXTRA.update({
+    "magic-long-float.py": ("python", "magic-numbers.numeric-literal", 2, "def area(radius):\n    return radius * radius * 3.14159265\n"),
+    "magic-long-float.ts": ("typescript", "magic-numbers.numeric-literal", 2, "function speed(t: number): number {\n  return t * 299792.458;\n}\n"),
+    "magic-long-float.rs": ("rust", "magic-numbers.numeric-literal", 2, "fn turn(r: f64) -> f64 {\n    r * 6.283185307\n}\n"),
+})
 NOT_WRAPPED = ("stateless.py", "header-temporal-word.py", "lazy-below-page-break.py")
 _P = {}
 _TIER = {"t": "quick"}
